@@ -52,6 +52,39 @@ def _elementwise(fn, a, *rest):
     return out
 
 
+def _binary_obj(fn, a, b, out=None, where=True):
+    res = _elementwise(fn, a, b)
+    if where is True and out is None:
+        return res
+    base = np.asarray(out if out is not None else np.zeros(np.shape(res)), dtype=object)
+    return _elementwise(lambda w, r, o: r if bool(w) else o, np.broadcast_to(np.asarray(where), np.shape(res)), res, base)
+
+
+def _piecewise_obj(x, condlist, funclist, *args, **kw):
+    xs = np.asarray(x, dtype=object)
+    n = len(condlist)
+    default = funclist[n] if len(funclist) == n + 1 else 0.0
+
+    def one(idx):
+        v = xs[idx]
+        f = default
+        for c, fc in zip(condlist, funclist):
+            cv = np.asarray(c, dtype=object)
+            if bool(cv[idx] if cv.shape else cv.item()):
+                f = fc
+                break
+        if callable(f):
+            r = f(np.array([v], dtype=object), *args, **kw)
+            return np.asarray(r, dtype=object).reshape(-1)[0]
+        return f
+    if xs.shape == ():
+        return one(())
+    out = np.empty(xs.shape, dtype=object)
+    for idx in np.ndindex(xs.shape):
+        out[idx] = one(idx)
+    return out
+
+
 def _isfinite1(v):
     if isinstance(v, (SymReal, LogReal)):
         return True
@@ -193,6 +226,44 @@ class NPFacade(types.ModuleType):
             return _elementwise(lambda x, y: abs(x - y) <= atol + rtol * abs(y), a, b)
         return np.isclose(a, b, rtol=rtol, atol=atol, equal_nan=equal_nan)
 
+    # -- binary ufuncs called with out= / where= (no object loop for the masked form), piecewise, clip -------------
+    def _binary(self, name, fn, a, b, out=None, where=True, **kw):
+        if not (has_sym(a) or has_sym(b) or (out is not None and has_sym(out))):
+            return getattr(np, name)(a, b, **dict(kw, **({} if out is None else {"out": out}), **({} if where is True else {"where": where})))
+        return _binary_obj(fn, a, b, out, where)
+
+    def divide(self, a, b, out=None, where=True, **kw):
+        return self._binary("divide", lambda x, y: x / y, a, b, out, where, **kw)
+
+    true_divide = divide
+
+    def multiply(self, a, b, out=None, where=True, **kw):
+        return self._binary("multiply", lambda x, y: x * y, a, b, out, where, **kw)
+
+    def add(self, a, b, out=None, where=True, **kw):
+        return self._binary("add", lambda x, y: x + y, a, b, out, where, **kw)
+
+    def subtract(self, a, b, out=None, where=True, **kw):
+        return self._binary("subtract", lambda x, y: x - y, a, b, out, where, **kw)
+
+    def piecewise(self, x, condlist, funclist, *args, **kw):
+        if not (has_sym(x) or any(has_sym(c) for c in condlist)):
+            try:
+                return np.piecewise(x, condlist, funclist, *args, **kw)
+            except (TypeError, ValueError):
+                pass        # concrete argument, but the pieces produce symbolic values (symbolic parameters)
+        return _piecewise_obj(x, condlist, funclist, *args, **kw)
+
+    def clip(self, a, a_min=None, a_max=None, **kw):
+        if not (has_sym(a) or has_sym(a_min) or has_sym(a_max)):
+            return np.clip(a, a_min, a_max, **kw)
+        r = a
+        if a_min is not None:
+            r = _elementwise(lambda v, lo: lo if bool(v < lo) else v, r, a_min)
+        if a_max is not None:
+            r = _elementwise(lambda v, hi: hi if bool(v > hi) else v, r, a_max)
+        return r
+
     def where(self, *args):
         if len(args) == 3 and (has_sym(args[0]) or has_sym(args[1]) or has_sym(args[2])):
             return _elementwise(lambda c, x, y: x if bool(c) else y, *args)
@@ -222,6 +293,14 @@ def selftest(seed=0):
         (f.sqrt(p), np.sqrt(p)),
         (f.fabs(a), np.fabs(a)),
         (f.hypot(a, p), np.hypot(a, p)),
+        (f.divide(a, p), np.divide(a, p)),
+        (f.divide(a, p, out=np.zeros_like(a), where=a > 0), np.divide(a, p, out=np.zeros_like(a), where=a > 0)),
+        (np.asarray(_binary_obj(lambda x, y: x / y, np.asarray(a, dtype=object), p, np.zeros_like(a), a > 0), dtype=float),
+         np.divide(a, p, out=np.zeros_like(a), where=a > 0)),
+        (f.piecewise(a, [a < 0, a > 3], [lambda v: -v, lambda v: v * 2, 7.0]), np.piecewise(a, [a < 0, a > 3], [lambda v: -v, lambda v: v * 2, 7.0])),
+        (np.asarray(_piecewise_obj(np.asarray(a, dtype=object), [a < 0, a > 3], [lambda v: -v, lambda v: v * 2, 7.0]), dtype=float),
+         np.piecewise(a, [a < 0, a > 3], [lambda v: -v, lambda v: v * 2, 7.0])),
+        (f.clip(a, -1.0, 2.0), np.clip(a, -1.0, 2.0)),
         (f.copysign(p, a), np.copysign(p, a)),
         (np.asarray(_elementwise(lambda x, y: (abs(x) if y >= 0 else -abs(x)), p, a), dtype=float), np.copysign(p, a)),
         (np.asarray(_elementwise(lambda x, y: _sqrt1(x * x + y * y), a, p), dtype=float), np.hypot(a, p)),
@@ -237,6 +316,15 @@ def selftest(seed=0):
                 not np.allclose(np.asarray(got, dtype=float), np.asarray(exp, dtype=float), rtol=1e-13, equal_nan=True):
             raise RuntimeError("np facade self-test failed: %r vs %r" % (got, exp))
     return len(checks)
+
+
+def series_to_numpy_keeping_objects(orig):
+    """Series.to_numpy(dtype=float) on a Series that holds symbolic values returns the object array (symbolic run only)"""
+    def to_numpy(self, dtype=None, *a, **kw):
+        if dtype is not None and _is_float_dtype(dtype) and self.dtype == object and has_sym(self):
+            return np.asarray(self.values, dtype=object)
+        return orig(self, dtype, *a, **kw)
+    return to_numpy
 
 
 # ---------------------------------------------------------------------------
